@@ -2,8 +2,9 @@
 emits coq/Gen/GenResolve.v:
   * gen_rflags: whether `fn if_branch`, `fn case_branch` and the `fall_through` arm of `fn expression`
     restore the scope stack (`self.stack.truncate(`), and whether the `AK::Access` arm of `fn assignable`
-    looks the root of `x.f` up on the scope stack before the namespace table -- the four flags of
-    Resolve/Resolver.v;
+    looks the root of `x.f` up on the scope stack before the namespace table, and whether `pub fn resolve`
+    repeats the use / from-use pass (result dropped) until a round adds no name before the pass that reports
+    -- the five flags of Resolve/Resolver.v;
   * gen_assign_target_deps: whether the `S::Assignment` arm of `statement_dependencies` also takes the
     dependencies of the assignment *target* (Dep/Deps.v);
   * gen_std_libs: the names in STD_LIB_FILES (Resolve/Modules.v: `use <name>` of one of these is a library).
@@ -84,6 +85,31 @@ def generate():
     if "truncate(" not in stmt or "truncate(ss)" not in expr:
         raise Untranslatable("name_resolution.rs: Block / Function no longer truncate the stack")
 
+    # the import pass of `pub fn resolve`: once per module in tree.modules order, or first repeated with the
+    # errors dropped until no name is added
+    top = _fn_body(nr, "resolve")
+    calls = [m.start() for m in re.finditer(r"\.resolve_global_variables\(", top)]
+    checked = re.findall(r"resolver\s*\.\s*resolve_global_variables\([^;]*\)\s*\?\s*;", top)
+    if len(calls) == 1 and len(checked) == 1 and not re.search(r"\b(loop|while)\b", top):
+        fixpoint = False
+    else:
+        lm = re.search(r"\bloop\b", top)
+        if not lm or len(calls) != 2 or len(checked) != 1:
+            raise Untranslatable("name_resolution.rs: the import pass of fn resolve is not understood")
+        loop_body = _braced(top, lm.end())
+        after = top[top.find(loop_body) + len(loop_body):]
+        quiet = re.search(r"let\s+_\s*=\s*resolver\s*\.\s*resolve_global_variables\(", loop_body)
+        counts = re.findall(r"resolver\s*\.\s*(\w+)\(\)", loop_body)
+        brk = re.search(r"if\s+resolver\s*\.\s*(\w+)\(\)\s*==\s*before\s*\{\s*break\s*;?\s*\}", loop_body)
+        if not (quiet and brk and counts.count(brk.group(1)) == 2
+                and re.search(r"let\s+before\s*=\s*resolver\s*\.\s*%s\(\)" % brk.group(1), loop_body)
+                and ".resolve_global_variables(" in after and "insert_namespace_and_add_definitions" not in after):
+            raise Untranslatable("name_resolution.rs: the loop around the import pass of fn resolve is not understood")
+        counter = _fn_body(nr, brk.group(1))
+        if not re.search(r"self\s*\.\s*namespaces\s*\.\s*values\(\)\s*\.\s*map\(\s*\|\s*(\w+)\s*\|\s*\1\s*\.\s*len\(\)\s*\)\s*\.\s*sum\(\)", counter):
+            raise Untranslatable("name_resolution.rs: fn %s is not the number of names in all namespaces" % brk.group(1))
+        fixpoint = True
+
     dep = _strip_comments(_read("sylt-compiler/src/dependency.rs"))
     sd = _fn_body(dep, "statement_dependencies")
     m = re.search(r"S::Assignment\s*\{([^}]*)\}\s*=>\s*([^\n]*(?:\n(?!\s*S::)[^\n]*)*)", sd)
@@ -118,7 +144,7 @@ def generate():
            "Import ListNotations.",
            "Local Open Scope string_scope.",
            "",
-           "Definition gen_rflags : rflags := mkFlags %s %s %s %s." % (b(if_tr), b(case_tr), b(else_tr), b(local_first)),
+           "Definition gen_rflags : rflags := mkFlags %s %s %s %s %s." % (b(if_tr), b(case_tr), b(else_tr), b(local_first), b(fixpoint)),
            "Definition gen_assign_target_deps : bool := %s." % b(target_deps),
            "Definition gen_std_libs : list string := [%s]." % "; ".join('"%s"' % n for n in names),
            "(* the `use` / `from .. use` paths of every std file, in order *)",
